@@ -90,9 +90,9 @@ MinimalAt(P, a, b, d, docs) ==
       ad == SumSeq([i \in 1..Len(d) |-> IF i \in K THEN Len(d[i].add) ELSE 0])
   IN IF ~IsArr(aP) \/ ~IsArr(bP) THEN FALSE
      \* a consequence of minimality that needs no table: inside one edited region no value is both removed and added
-     \* (two equal elements there could have been kept); it is all that is judged when the LCS table would exceed 6 M cells
+     \* (two equal elements there could have been kept); it is all that is judged when the LCS table would exceed 1.5 M cells
      ELSE IF \E i \in K : SeqRange(NonVoid(d[i].remove)) \cap SeqRange(NonVoid(d[i].add)) # {} THEN FALSE
-     ELSE IF Len(aP.v) * Len(bP.v) > 6000000 THEN TRUE
+     ELSE IF Len(aP.v) * Len(bP.v) > 1500000 THEN TRUE
      ELSE LET lcs == LcsLen(aP.v, bP.v) IN
           /\ rm <= Len(aP.v) - lcs
           /\ ad <= Len(bP.v) - lcs
